@@ -250,3 +250,124 @@ func genReplEntry(r *lib.Rng) string {
 	s = strings.ReplaceAll(s, "\r", " ")
 	return strings.TrimRight(s, "\n")
 }
+
+// ---- REPL entries with very long lines -------------------------------------------------------
+// The REPL's no-liner reader (getLine) assembles a line from the parts bufio.Reader.ReadLine returns;
+// a line longer than the reader's buffer (4096 bytes) arrives in several parts. Entries whose lines
+// straddle the multiples of that size, in every construct that can make a line long.
+
+// filler of exactly n bytes whose content depends on the position (no period that divides 4096)
+func filler(n int, sep string) string {
+	var sb strings.Builder
+	for i := 0; sb.Len() < n; i++ {
+		sb.WriteString("w")
+		sb.WriteString(strconvItoa(i*7 + 3))
+		sb.WriteString(sep)
+	}
+	return sb.String()[:n]
+}
+
+func strconvItoa(i int) string {
+	if i == 0 {
+		return "0"
+	}
+	var b []byte
+	for i > 0 {
+		b = append([]byte{byte('0' + i%10)}, b...)
+		i /= 10
+	}
+	return string(b)
+}
+
+// longLine builds one line of exactly n bytes (n >= 40) of the given shape.
+func longLine(shape, n int) string {
+	switch shape % 6 {
+	case 0: // a long string literal
+		pre, post := "(def s \"", "\")"
+		return pre + filler(n-len(pre)-len(post), "_") + post
+	case 1: // a long list of short atoms
+		pre, post := "(list ", ")"
+		body := strings.TrimRight(filler(n-len(pre)-len(post), " "), " ")
+		for len(pre)+len(body)+len(post) < n {
+			body += "z"
+		}
+		return pre + body + post
+	case 2: // a long block comment inside a form
+		pre, post := "(f /* ", " */ 8)"
+		return pre + filler(n-len(pre)-len(post), " ") + post
+	case 3: // a long raw string
+		pre, post := "(def r `", "`)"
+		return pre + filler(n-len(pre)-len(post), " ") + post
+	case 4: // a long array of numbers with commas
+		pre, post := "[", "]"
+		var sb strings.Builder
+		for i := 0; sb.Len() < n-len(pre)-len(post)-8; i++ {
+			sb.WriteString(strconvItoa(i*13+1) + ", ")
+		}
+		body := sb.String()
+		for len(pre)+len(body)+len(post) < n {
+			body += "7"
+		}
+		return pre + body + post
+	default: // a long infix block
+		pre, post := "{x = ", "}"
+		var sb strings.Builder
+		for i := 0; sb.Len() < n-len(pre)-len(post)-10; i++ {
+			sb.WriteString("v" + strconvItoa(i) + " + ")
+		}
+		body := sb.String() + "1"
+		for len(pre)+len(body)+len(post) < n {
+			body += "1"
+		}
+		return pre + body + post
+	}
+}
+
+type longEntry struct {
+	text string
+	emit bool // also a case line for the model
+	tag  string
+}
+
+// longReplEntries: lines around every multiple of the bufio buffer size up to 4 buffers, a few much longer ones,
+// as the only line, as the first line of a multi-line form and as a continuation line.
+func longReplEntries(r *lib.Rng, thorough bool) []longEntry {
+	var out []longEntry
+	const buf = 4096
+	k := 0
+	for mult := 1; mult <= 4; mult++ {
+		span := 3
+		if thorough {
+			span = 12
+		}
+		for delta := -span; delta <= span; delta++ {
+			n := mult*buf + delta
+			shape := k
+			k++
+			line := longLine(shape, n)
+			// sample for the model: lists and arrays are cheap for it at any length, strings only near one buffer
+			emit := (delta == 1 || delta == -1) && (mult == 1 || shape%6 == 1 || shape%6 == 4)
+			out = append(out, longEntry{line, emit, "repl:long-single"})
+			if delta >= 0 && delta <= 1 {
+				// the long line as continuation line, and followed by a continuation line
+				out = append(out, longEntry{"(begin\n" + longLine(shape+1, n) + "\n)", mult == 1 && delta == 1, "repl:long-continuation"})
+				out = append(out, longEntry{"(begin " + longLine(shape+2, n-7) + "\n  1\n\n 2)", false, "repl:long-first"})
+			}
+		}
+	}
+	for _, n := range []int{20000, 70000} {
+		out = append(out, longEntry{longLine(1, n), false, "repl:long-single"})
+		out = append(out, longEntry{longLine(0, n), false, "repl:long-single"})
+		out = append(out, longEntry{"(a\n" + longLine(2, n) + "\n b)", false, "repl:long-continuation"})
+	}
+	// random lengths and shapes
+	m := 40
+	if thorough {
+		m = 600
+	}
+	for i := 0; i < m; i++ {
+		n := 3000 + r.Intn(14000)
+		out = append(out, longEntry{longLine(r.Intn(6), n), false, "repl:long-random"})
+	}
+	return out
+}
